@@ -375,6 +375,8 @@ def run(ck, facts):
     # an optional slice / primitive / struct parameter is declared as the {payload, is_ok} record the macro compiles (rule of C10.R2: the HIR keeps the DiplomatOption wrapper)
     import c10
     c10.run(C.SubCheck(ck, "R2", "", ["R2"], key_re=r"/wrapper$|opt-wrapper"), facts)
+    # ... and the macro leaves a parameter type unconverted only when the type is already the C-compatible one (C10.R3: is_ffi_safe(ffi_safe_version(T)) cells)
+    c10.run(C.SubCheck(ck, "R2", "", ["R3"], key_re=r"is_ffi_safe"), facts)
 
     # the type a C header is named after is the type whose fields it declares (ids are positions in unfiltered vectors; rule shared with C14.R2)
     import c14
